@@ -158,6 +158,19 @@ def check_lind(rep: Report, rng, n_random, lines, sink):
         rep.hist("lind_outcome", out if out.startswith("raise") else "ok")
 
 
+def oracle_noise(nm, dim, out):
+    """Noise the repository says it cannot emulate must never come with Results."""
+    if not out.startswith("emulate"):
+        return None
+    if "dephasing" in nm.noise_types and nm.hyperfine_dephasing_rate != 0.0:
+        return "Results returned with hyperfine_dephasing_rate != 0 (digital-basis-only noise)", \
+            "emulates-hyperfine-dephasing"
+    if "eff_noise" in nm.noise_types and any(len(op) != dim for op in nm.eff_noise_opers):
+        return f"Results returned with effective-noise operators that are not {dim} x {dim}", \
+            "emulates-misshapen-eff-noise"
+    return None
+
+
 def check_pipeline(rep: Report, rng, n_random, lines, sink, exhaustive_dims=(2, 3)):
     noises = [z for z in L.NOISE_SPECS if L.try_noise_model(z) is not None]
     cases = [(b, it, dim, z, s) for b in ("sv", "mps") for it in ("ising", "XY", "foo") for dim in exhaustive_dims
@@ -170,6 +183,9 @@ def check_pipeline(rep: Report, rng, n_random, lines, sink, exhaustive_dims=(2, 
             bad = L.oracle_run(b, data, cfg, out, info)
             if bad:
                 rep.fail(bad[0], dict(kind="pipeline", backend=b, it=it, dim=dim, noise=z, solver=s), klass=bad[1])
+        bad = oracle_noise(L.noise_model(z), dim, out)
+        if bad:
+            rep.fail(bad[0], dict(kind="pipeline", backend=b, it=it, dim=dim, noise=z, solver=s), klass=bad[1])
         if out.startswith("emulate") and (it not in ("ising", "XY") or (b == "sv" and (it != "ising" or dim != 2))):
             rep.fail(f"{b} returned Results for interaction type {it!r} with {dim} levels",
                      dict(kind="pipeline", backend=b, it=it, dim=dim, noise=z, solver=s),
@@ -212,6 +228,9 @@ def check_sequences(rep: Report, lines, sink):
                     bad = L.oracle_run(b, data, cfg, out, info)
                     if bad:
                         rep.fail(bad[0], dict(kind="sequence", backend=b, bases=bases, noise=z, solver=s), klass=bad[1])
+                bad = oracle_noise(L.noise_model(z), basis[1], out) if basis is not None else None
+                if bad:
+                    rep.fail(bad[0], dict(kind="sequence", backend=b, bases=bases, noise=z, solver=s), klass=bad[1])
                 if out.startswith("emulate") and "dig" in bases:
                     rep.fail(f"{b} returned Results for a sequence addressing the digital basis ({bases})",
                              dict(kind="sequence", backend=b, bases=bases, noise=z, solver=s),
@@ -227,9 +246,11 @@ def check_sequences(rep: Report, lines, sink):
                         # prepared register; the run is judged by the `config.seq` line above only
                         rep.count("sequence_with_badly_prepared_atoms")
                         continue
-                lines.append(" ".join(["config.sequence", "repaired", b, bases, "1" if leak else "0",
-                                       ",".join(L.kinds_of(L.noise_model(z))) or "-", s]))
-                sink.append(("sequence", dict(backend=b, bases=bases, noise=z, solver=s), out))
+                for fixed in ("0", "1"):     # current tree / proposed repair of finding D20 (C33) in run()
+                    lines.append(" ".join(["config.sequence", "repaired", fixed, b, bases, "1" if leak else "0",
+                                           ",".join(L.kinds_of(L.noise_model(z))) or "-", s]))
+                    sink.append(("sequence" if fixed == "0" else "sequence-fixed",
+                                 dict(backend=b, bases=bases, noise=z, solver=s), out))
                 rep.hist("sequence_outcome", f"{bases}: {out}")
 
 
@@ -285,8 +306,18 @@ def check(rep: Report, tier: str, seed: int) -> None:
         rep.broke("driver: " + str(e)[-800:])
         model = [None] * len(lines)
     dis, asfound_hits = 0, 0
-    prev = None
+    prev = pending = None
+    d20 = {"asFound": 0, "repaired": 0}
     for line, (kind, spec, out), mo in zip(lines, sink, model):
+        if kind == "sequence":
+            pending = mo
+            continue
+        if kind == "sequence-fixed":
+            # the real run() must match the current-tree model or the one with D20 repaired in run()
+            if mo is not None and pending != mo and out in (pending, mo):
+                d20[("asFound" if out == pending else "repaired")] += 1
+            mo = pending if out == pending else mo
+            kind = "sequence"
         if kind == "asfound":
             # variant resolution: does the real code behave like the tree *before* the fixes here?
             pline, (pk, pspec, pout), pmo = prev
@@ -301,6 +332,7 @@ def check(rep: Report, tier: str, seed: int) -> None:
                 rep.broke(f"correspondence Model.Config vs real code ({kind}): spec={L.jd(spec)[:500]} "
                           f"model={mo} impl={out}")
     rep.extra["correspondence_disagreements"] = dis
+    rep.extra["run_dmrg_effective_noise_check_variant_matches"] = d20
     rep.extra["cases_matching_the_pre_fix_variant_only"] = asfound_hits
     if asfound_hits:
         rep.broke(f"{asfound_hits} case(s) behave like Variant.asFound (the tree before the emu-sv basis guard / "
@@ -341,6 +373,9 @@ def replay(rep: Report, path: str) -> int:
             out, dd, cc, info = L.pipeline_real(d["backend"], d["it"], d["dim"], d["noise"], d["solver"])
             msg = L.oracle_run(d["backend"], dd, cc, out, info) if dd is not None else None
             msg = msg[0] if msg else None
+            if not msg:
+                msg = oracle_noise(L.noise_model(d["noise"]), d["dim"], out)
+                msg = msg[0] if msg else None
             if not msg and out.startswith("emulate") and (d["it"] not in ("ising", "XY") or (
                     d["backend"] == "sv" and (d["it"] != "ising" or d["dim"] != 2))):
                 msg = f"Results for interaction type {d['it']!r} with {d['dim']} levels"
@@ -348,6 +383,9 @@ def replay(rep: Report, path: str) -> int:
             out, basis, dd, cc, info = L.sequence_real(d["backend"], d["bases"], d["noise"], d["solver"])
             msg = L.oracle_run(d["backend"], dd, cc, out, info) if dd is not None else None
             msg = msg[0] if msg else None
+            if not msg and basis is not None:
+                msg = oracle_noise(L.noise_model(d["noise"]), basis[1], out)
+                msg = msg[0] if msg else None
             if not msg and out.startswith("emulate") and "dig" in d["bases"]:
                 msg = "Results for a sequence addressing the digital basis"
         print(f"replay[{d['kind']}]: outcome={out}:", msg or "property holds on this input now")
